@@ -5,7 +5,7 @@ from sa.cfg import dominators, ev_dominates
 from sa.extract import library_units
 from sa.num import Num, Poly, Limit, State, entails
 from sa.rules import argstr, where
-from rules import C04
+from rules import C04, cbor_stream
 
 FILE = "source/cbor.c"
 ENCS = "source/external/libcbor/cbor/internal/encoders.c"
@@ -19,9 +19,10 @@ DECIDED = [
     "CACHE: a new element is decoded only when the one-item cache is empty and no sticky error is set; pop functions give the cached value out only when its type is the expected one and clear the cache exactly then; peek never clears; consume_next_single_element clears; the source advances by exactly the bytes the stream decoder reports (C04 WRAPPER)",
     "SKIP: the whole-item skip consumes one further item for a tag, n items for an array, 2 per entry for a map, and for an indefinite container tests for the break BEFORE consuming each item (so an empty one is skipped correctly) and leaves the cache empty; every nested failure is propagated",
 ]
+DECIDED = DECIDED + list(cbor_stream.DECIDED)
 NOT_DECIDED = ["numeric equality of floating-point values through libcbor's float packing (cbor_encode_single/double bit layout) and the stream decoder's loaders", "byte-for-byte agreement with an independent decoder beyond heads and major types",
                "unbounded recursion depth of the whole-item skip (known finding D11)"]
-ASSUMPTIONS = list(C04.ASSUMPTIONS) + ["the libcbor stream decoder invokes exactly one callback per decoded element (vendored code, not analysed)"]
+ASSUMPTIONS = list(C04.ASSUMPTIONS) + ["the libcbor stream decoder invokes exactly one callback per decoded element (its reads are bounded by STREAM; its callback discipline is not analysed)"]
 
 OFFSETS = {"cbor_encode_uint": 0x00, "cbor_encode_negint": 0x20, "cbor_encode_bytestring_start": 0x40, "cbor_encode_string_start": 0x60, "cbor_encode_array_start": 0x80, "cbor_encode_map_start": 0xA0,
            "cbor_encode_tag": 0xC0, "cbor_encode_ctrl": 0xE0, "cbor_encode_single": 0xE0, "cbor_encode_double": 0xE0}
@@ -455,6 +456,9 @@ def skip(R, P):
 def analyse(ctx, replace=None, only=None):
     R = ctx.R
     units = [u for u in library_units(ctx.ex.repo) if "external" not in u or "libcbor/cbor/encoding.c" in u or "libcbor/cbor/internal/encoders.c" in u]
+    if only and "stream" in only:
+        cbor_stream.stream_bounds(R, ctx.program(cbor_stream.UNITS, "ship", replace=replace))
+        return
     P = ctx.program(units, "ship", replace=replace)
     if not R.require(P.fn("aws_cbor_encoder_write_float") is not None, "%s not analysed" % FILE):
         return
@@ -466,9 +470,10 @@ def analyse(ctx, replace=None, only=None):
     skip(R, P)
     C04.wrappers(R, P)
     C04.recursion(R, P, P.functions_in(FILE), which=("self",))
+    cbor_stream.stream_bounds(R, ctx.program(cbor_stream.UNITS, "ship", replace=replace))
 
 
-MUTANTS = [
+MUTANTS = [dict(_m, scope={"stream": True}) for _m in cbor_stream.MUTANTS] + [
     {"name": "head-not-shortest", "file": ENCS, "expect": "HEAD", "old": "    if (value <= UINT8_MAX)\n      return _cbor_encode_uint8(", "new": "    if (value < UINT8_MAX)\n      return _cbor_encode_uint8("},
     {"name": "head-written-without-room", "file": ENCS, "expect": "HEAD", "old": "  if (buffer_size >= 9) {", "new": "  if (buffer_size >= 8) {"},
     {"name": "text-has-bytes-major-type", "file": ENCODING, "expect": "HEAD", "old": "  return _cbor_encode_uint((size_t)length, buffer, buffer_size, 0x60);", "new": "  return _cbor_encode_uint((size_t)length, buffer, buffer_size, 0x40);"},
